@@ -20,6 +20,7 @@ type PackagesFacade struct {
 
 	fileSet       *token.FileSet
 	files         map[string]*ast.File         // filename → *ast.File
+	globbedFiles  map[string]struct{}          // names of the files matched by the configured globs
 	fileToPackage map[string]*packages.Package // filename → owning *packages.Package
 
 	packagesCache  map[string]*packages.Package // pkgPath → *packages.Package
@@ -33,6 +34,7 @@ func NewPackagesFacade(config PackageFacadeConfig) (PackagesFacade, error) {
 		fileSet: token.NewFileSet(),
 
 		files:         make(map[string]*ast.File),
+		globbedFiles:  make(map[string]struct{}),
 		fileToPackage: make(map[string]*packages.Package),
 
 		packagesCache:  make(map[string]*packages.Package),
@@ -47,11 +49,17 @@ func (facade *PackagesFacade) FSet() *token.FileSet {
 	return facade.fileSet
 }
 
-// GetAllSourceFiles returns all known source files, ordered by their absolute path
+// GetAllSourceFiles returns the source files matched by the configured globs, ordered by their absolute path.
+//
+// Files of packages that were loaded on demand (e.g. to resolve a dot-import) are known to the facade
+// but are not sources - they were never requested via the globs and must not be walked for controllers
 func (facade *PackagesFacade) GetAllSourceFiles() []*ast.File {
 	// Map iteration order is randomized; Callers walk the files in order so it must be stable between runs
 	fileNames := make([]string, 0, len(facade.files))
 	for fileName := range facade.files {
+		if _, isGlobbed := facade.globbedFiles[fileName]; !isGlobbed {
+			continue
+		}
 		fileNames = append(fileNames, fileName)
 	}
 	slices.Sort(fileNames)
@@ -108,6 +116,8 @@ func (facade *PackagesFacade) initWithGlobs() error {
 			pkgPathsToLoad.Add(filepath.Dir(pkgPath))
 		}
 	}
+
+	facade.globbedFiles = matchedAbsPaths
 
 	err := facade.loadPackagesFiltered(pkgPathsToLoad.ToSlice(), matchedAbsPaths)
 	if err != nil {
